@@ -510,6 +510,14 @@ func (vfs *MemFS) MkdirAll(path string, perm fs.FileMode) error {
 	}
 
 	parent.mu.Lock()
+
+	if vfs.isNotExist(err) && parent.children[pi.Part()] != nil {
+		// the first missing element was created by someone else since it was looked up : start again.
+		parent.mu.Unlock()
+
+		return vfs.MkdirAll(path, perm)
+	}
+
 	defer parent.mu.Unlock()
 
 	if !parent.checkPermission(avfs.OpenWrite|avfs.OpenLookup, vfs.User()) {
